@@ -197,7 +197,7 @@ def subspace_pool(idm, rng):
     S = idm.IDSubspace
     b = rng.randrange(1, 254)
     return [S(b, b + 1), S(b, b + 2), S(b, min(256, b + 3)), S(0, 2), S(0, 3), S(255, 256), S(0, 256), S(b, min(256, b + 40)), S(max(0, b - 1), b + 1),
-            S(b, min(256, b + 5)), S(b, min(256, b + 8)), S(0, 6)]
+            S(b, min(256, b + 5)), S(b, min(256, b + 8)), S(0, 6), S(1, 256), S(1, 2), S(0, 255), S(1, 255)]
 
 
 def random_history(ctx, tup, idx, cov, large=False):
@@ -221,9 +221,18 @@ def random_history(ctx, tup, idx, cov, large=False):
             pairs = []
             one_space = rng.choice(spaces) if rng.random() < 0.7 else None   # several subspaces of ONE space: shared table
             pool = subspace_pool(idm, rng)
-            for _ in range(rng.choice([1, 2, 3])):
-                sp = one_space or rng.choice(spaces)
-                pairs.append((sp, rng.choice(pool)))
+            if rng.random() < 0.15:
+                # boundary pairs in ONE table: "every non-zero byte value" (1:256) next to a subspace that owns byte value 0
+                # — in the space whose subspace byte may be zero (24bit) these are different sets of ids
+                sp = rng.choice(spaces)
+                S = idm.IDSubspace
+                pairs = [(sp, S(1, 256)), (sp, rng.choice([S(0, 2), S(0, 256), S(0, 3)]))]
+                if rng.random() < 0.5:
+                    pairs.append((sp, S(0, 255)))
+            else:
+                for _ in range(rng.choice([1, 2, 3])):
+                    sp = one_space or rng.choice(spaces)
+                    pairs.append((sp, rng.choice(pool)))
         sizes = [p[0].subspace_size(p[1]) for p in pairs]
         if not large and rng.random() < 0.4 and sizes[0] <= 1024:
             # boundary: the configured per-subspace maximum equals the subspace size exactly
